@@ -552,6 +552,28 @@ fn define_inherent_impl(
             .map(|g| g.to_ident_name())
             .collect();
 
+        // the bounds of the method's own type parameters are checked where it is called
+        let bounds: Vec<(String, Vec<String>)> = m
+            .generic_bounds
+            .iter()
+            .map(|(param, traits)| {
+                let traits = traits
+                    .iter()
+                    .filter_map(|path| {
+                        super::util::resolve_trait_name(env, &path.display())
+                            .map(|(resolved, _)| resolved)
+                    })
+                    .collect::<Vec<_>>();
+                (param.to_ident_name(), traits)
+            })
+            .filter(|(_, traits)| !traits.is_empty())
+            .collect();
+        if !bounds.is_empty() {
+            env.current_mut()
+                .fn_bounds
+                .insert(key.method_bounds_name(&method_name_str), bounds);
+        }
+
         methods_to_add.insert(
             method_name_str,
             env::FnScheme {
